@@ -5,12 +5,13 @@
  "enforce": ["netbuf_read_wait"],
  "replace": ["netbuf_read_resize_buffer"],
  "annotate": ["netbuf/netbuf_read.c"],
- "defines": ["VERIF_HALLOC"],
- "models": ["models/net_events.c", "models/net_netapi.c"],
+ "defines": ["VERIF_HALLOC", "NET_MEMMOVE_MAX=32"],
+ "models": ["models/net_events.c", "models/net_netapi.c", "models/net_mem.c"],
  "cbmc": ["--malloc-may-fail", "--malloc-fail-null"],
  "timeout": 300,
  "assumptions": [
   "network_read / network_ssl_read = their C06 contracts (models/net_netapi.c); events_immediate_register per models/net_events.c",
+  "memmove = byte-wise model models/net_mem.c (bound NET_MEMMOVE_MAX >= NB_MAXOBJ, so complete here); memcpy/malloc/free = CBMC built-ins",
   "object-size parameter: reader buffer <= NB_MAXOBJ (32) bytes, wait length <= 2*NB_MAXOBJ; the real initial size 4096 only enters through netbuf_read_init2"
  ]
 }
